@@ -28,7 +28,8 @@ type Run struct {
 }
 
 type History struct {
-	Runs []Run `json:"runs"`
+	Runs    []Run `json:"runs"`
+	Symlink bool  `json:"symlink,omitempty"` // the cache path is a symbolic link to a file elsewhere before the first run
 }
 
 const cacheChunks = 6 // must equal Driver.Cache.nchunks
@@ -138,6 +139,9 @@ func (c *cacheRig) run(r Run) procResult {
 		target = filepath.Join(filepath.Dir(c.target), strings.Repeat("n", 238)+"-tgt")
 	}
 	os.WriteFile(target, c.content(r.Variant), 0o755)
+	// every build carries the same timestamp (reproducible builds, cp -p); variants 1 and 2 also have the same size
+	fixed := time.Unix(1600000000, 0)
+	os.Chtimes(target, fixed, fixed)
 	os.RemoveAll(c.ctl)
 	os.MkdirAll(c.ctl, 0o777)
 	os.WriteFile(filepath.Join(c.ctl, "listing"), []byte(c.listings[r.Variant]), 0o644)
@@ -185,6 +189,10 @@ func (c *cacheRig) run(r Run) procResult {
 func (c *cacheRig) cacheState() string {
 	data, err := os.ReadFile(c.dumpFile)
 	if err != nil {
+		return "absent"
+	}
+	if fi, lerr := os.Lstat(c.dumpFile); lerr == nil && fi.Mode()&os.ModeSymlink != 0 && len(data) == 0 {
+		// the link the history planted still points at its empty file: no cache content yet
 		return "absent"
 	}
 	for v, h := range c.hashes {
@@ -264,6 +272,10 @@ func runCache(e *env, replayCases []string) error {
 		}
 	} else {
 		// systematic part
+		// the binary is rebuilt at the same path between two complete runs (the variants differ in bytes appended
+		// to the same ELF image: same sections, same Go build id, another file hash)
+		hs = append(hs, History{Runs: []Run{{Variant: 1, Sched: "ok"}, {Variant: 2, Sched: "ok"}, {Variant: 1, Sched: "ok"}}})
+		hs = append(hs, History{Runs: []Run{{Variant: 0, Sched: "ok"}, {Variant: 1, Sched: "ok"}}})
 		for j := 0; j <= cacheChunks; j++ {
 			hs = append(hs, History{Runs: []Run{{Variant: 0, Sched: fmt.Sprintf("kill:%d", j)}, {Variant: 0, Sched: "ok"}}})
 			hs = append(hs, History{Runs: []Run{{Variant: 0, Sched: fmt.Sprintf("fail:%d", j)}, {Variant: 0, Sched: "ok"}}})
@@ -285,13 +297,15 @@ func runCache(e *env, replayCases []string) error {
 		for _, jk := range [][2]int{{1, 3}, {2, 5}, {4, 2}, {5, 6}} {
 			hs = append(hs, History{Runs: []Run{{Variant: 0, Sched: fmt.Sprintf("overlap:%d:%d", jk[0], jk[1])}, {Variant: 0, Sched: "ok"}}})
 		}
+		for _, j := range []int{2, 4} {
+			hs = append(hs, History{Symlink: true, Runs: []Run{{Variant: 0, Sched: fmt.Sprintf("kill:%d", j)}, {Variant: 0, Sched: "ok"}}})
+		}
+		hs = append(hs, History{Symlink: true, Runs: []Run{{Variant: 0, Sched: "fail:3"}, {Variant: 0, Sched: "ok"}}})
 		hs = append(hs, History{Runs: []Run{{Variant: 0, Sched: "missing"}, {Variant: 0, Sched: "ok"}}})
 		hs = append(hs, History{Runs: []Run{{Variant: 0, Sched: "noexec:0"}, {Variant: 0, Sched: "ok"}}})
 		hs = append(hs, History{Runs: []Run{{Variant: 0, Sched: "noexec:1"}, {Variant: 0, Sched: "ok"}}})
 		hs = append(hs, History{Runs: []Run{{Variant: 0, Sched: "ok"}, {Variant: 0, Sched: "ok"}}})
-		// the binary is rebuilt at the same path between two complete runs (the variants differ in bytes appended
-		// to the same ELF image: same sections, same Go build id, another file hash)
-		hs = append(hs, History{Runs: []Run{{Variant: 1, Sched: "ok"}, {Variant: 2, Sched: "ok"}, {Variant: 1, Sched: "ok"}}})
+
 		hs = append(hs, History{Runs: []Run{{Variant: 0, Sched: "ok"}, {Variant: 1, Sched: "kill:3"}, {Variant: 1, Sched: "ok"}, {Variant: 0, Sched: "ok"}}})
 		hs = append(hs, History{Runs: []Run{{Variant: 0, Sched: "ok"}, {Variant: 0, Sched: "kill:2"}, {Variant: 0, Sched: "ok"}}})
 		hs = append(hs, directHistories()...)
@@ -347,6 +361,17 @@ func runCache(e *env, replayCases []string) error {
 			continue
 		}
 		c.reset()
+		if h.Symlink {
+			// the cache entry is a symbolic link to a file kept elsewhere (a user who moved large dumps to another
+			// disk); for the specification nothing changes: a rename replaces the link
+			dir := filepath.Dir(c.dumpFile)
+			os.MkdirAll(dir, 0o755)
+			elsewhere := filepath.Join(c.home, "elsewhere-dump")
+			os.WriteFile(elsewhere, nil, 0o644)
+			os.Symlink(elsewhere, c.dumpFile)
+			chownR(c.home)
+			e.tag("cache-path-is-a-symlink")
+		}
 		var got []string
 		bad := false
 		var diff *Mismatch // first difference from the specification (the history is still run to its end)
@@ -404,7 +429,7 @@ func runCache(e *env, replayCases []string) error {
 				withInput++
 			}
 		}
-		if withInput >= 3 || len(e.sum.Mismatches) >= 45 {
+		if withInput >= 3 || len(e.sum.Mismatches) >= 90 {
 			break
 		}
 	}
